@@ -162,7 +162,7 @@ func runC10(c *Ctx) {
 	c.rule("R-DETACH-INVALIDATE", 4, "every store P.link = V is an insertion, a marker, or a detach preceded by invalidation of the dropped entries")
 	c.rule("R-TAIL-RESET", 2, "after Cursor.Remove/List.Clear inside mlink.Queue every path re-seats back (unconditionally or when the list is empty); Add re-seats a zero back cursor")
 	c.rule("R-SIZE-PAIR", 2, "size+1 ↔ one-element back.Add, size-1 ↔ cur.Remove on the not-at-end path, size=0 ↔ list.Clear")
-	c.rule("R-RING-MIRROR", 4, "every store A.next = B has in the same block a store B.prev = A and vice versa")
+	c.rule("R-RING-MIRROR", 1, "every store A.next = B has in the same block a store B.prev = A and vice versa")
 	c.rule("R-YIELD", 4, "Stack.Each, List.Each, Queue.Each, ring.scan/Each stop after f returned false")
 	ruleNoopGuard(c, "ring")
 	ruleWrapChecked(c)
@@ -385,6 +385,24 @@ func runC10(c *Ctx) {
 		call, ok := st.Val.(*ssa.Call)
 		return ok && staticCallee(&call.Call) == lCfirst
 	}
+	// … or a call of a Queue helper that re-seats the cursor on all of its paths (q.rewind())
+	isBackResetDirect := isBackReset
+	isBackReset = func(in ssa.Instruction) bool {
+		if isBackResetDirect(in) {
+			return true
+		}
+		call, ok := in.(*ssa.Call)
+		if !ok {
+			return false
+		}
+		cal := origin(staticCallee(&call.Call))
+		if cal == nil || cal.Blocks == nil || cal.Signature.Recv() == nil || !isNamedOrigin(cal.Signature.Recv().Type(), queueT) {
+			return false
+		}
+		missing, _ := reachesWithout(P, firstInstr(cal), true, isReturn, isBackResetDirect)
+		return !missing
+	}
+	cPush := P.Func("mlink", "Cursor", "Push")
 	for _, fn := range P.Methods("mlink", "Queue") {
 		name := fnName(fn)
 		allInstrs(fn, func(in ssa.Instruction) {
@@ -406,7 +424,10 @@ func runC10(c *Ctx) {
 					return false
 				})
 				c.judge(okR, "R-TAIL-RESET", key, call.Pos(), "back re-seated on every path where the list may have become empty", "the cached tail cursor is not re-seated after entries were detached ("+wit+"): the next Add would use a stale cursor")
-			case cAdd:
+			case cAdd, cPush:
+				if cal == nil {
+					return
+				}
 				// receiver is &q.back: before it, on all paths: back.pred != nil edge or back reset
 				if fa, ok := call.Call.Args[0].(*ssa.FieldAddr); ok {
 					if _, f := fieldVarOf(fa); sameField(f, backF) {
@@ -467,6 +488,34 @@ func runC10(c *Ctx) {
 				return ""
 			}
 			switch staticCallee(&call.Call) {
+			case nil:
+				return ""
+			case cPush:
+				// Push inserts exactly one element at the cursor; the tail cursor is at the end again only
+				// if it then steps past the new element (Push, then Next — not the other way round)
+				after, before := false, false
+				seenSelf := false
+				for _, in2 := range call.Block().Instrs {
+					if in2 == in {
+						seenSelf = true
+						continue
+					}
+					c2, ok := in2.(*ssa.Call)
+					if !ok {
+						continue
+					}
+					if cal := staticCallee(&c2.Call); cal != nil && cal.Name() == "Next" && len(c2.Call.Args) > 0 && len(call.Call.Args) > 0 && (c2.Call.Args[0] == call.Call.Args[0] || sym(c2.Call.Args[0]) == sym(call.Call.Args[0])) {
+						if seenSelf {
+							after = true
+						} else {
+							before = true
+						}
+					}
+				}
+				if after && !before {
+					return "+1"
+				}
+				return "+?"
 			case cAdd:
 				one := false
 				if len(call.Call.Args) == 2 {
@@ -849,6 +898,43 @@ func ruleNoopGuard(c *Ctx, pkg string) {
 				}
 			}
 		})
+		// stores made through a linking helper (link(a, b): a.next = b; b.prev = a) count at the call site
+		allInstrs(fn, func(in ssa.Instruction) {
+			call, ok := in.(*ssa.Call)
+			if !ok {
+				return
+			}
+			cal := origin(staticCallee(&call.Call))
+			if cal == nil || cal.Blocks == nil || cal.Pkg != origin(fn).Pkg || cal == origin(fn) {
+				return
+			}
+			allInstrs(cal, func(in2 ssa.Instruction) {
+				s2, ok := in2.(*ssa.Store)
+				if !ok {
+					return
+				}
+				fa, ok := s2.Addr.(*ssa.FieldAddr)
+				if !ok {
+					return
+				}
+				bi, vi := -1, -1
+				for i, p := range cal.Params {
+					if fa.X == ssa.Value(p) {
+						bi = i
+					}
+					if s2.Val == ssa.Value(p) {
+						vi = i
+					}
+				}
+				if bi < 0 || vi < 0 || bi >= len(call.Call.Args) || vi >= len(call.Call.Args) {
+					return
+				}
+				if _, isPtr := s2.Val.Type().Underlying().(*types.Pointer); isPtr {
+					_, f := fieldVarOf(fa)
+					stores = append(stores, st{call.Call.Args[bi], f, call.Call.Args[vi]})
+				}
+			})
+		})
 		if len(stores) == 0 {
 			continue
 		}
@@ -945,16 +1031,26 @@ func ruleWrapChecked(c *Ctx) {
 	}
 	c.sawFn(fnName(at))
 	recv := at.Params[0]
-	comparedWithRecv := func(v ssa.Value) bool {
+	var comparedD func(v ssa.Value, d int) bool
+	comparedD = func(v ssa.Value, d int) bool {
 		for _, r := range referrersOf(v) {
-			if bo, ok := r.(*ssa.BinOp); ok && (bo.Op == token.EQL || bo.Op == token.NEQ) {
-				if (bo.X == v && bo.Y == ssa.Value(recv)) || (bo.Y == v && bo.X == ssa.Value(recv)) {
+			switch x := r.(type) {
+			case *ssa.BinOp:
+				if x.Op == token.EQL || x.Op == token.NEQ {
+					if (x.X == v && x.Y == ssa.Value(recv)) || (x.Y == v && x.X == ssa.Value(recv)) {
+						return true
+					}
+				}
+			case *ssa.Phi:
+				// the step is merged with its mirror image before the test (cur = cur.prev / cur.next; if cur == r)
+				if d < 3 && comparedD(x, d+1) {
 					return true
 				}
 			}
 		}
 		return false
 	}
+	comparedWithRecv := func(v ssa.Value) bool { return comparedD(v, 0) }
 	n := 0
 	var bad []string
 	seen := map[ssa.Value]bool{}
